@@ -59,7 +59,7 @@ let methods_of_spec (ms : Sx.t) : Datatypes.nat list =
 (* a header key with an empty list of values reads as absent (http.Header.Get returns "") *)
 let hdrs_of (x : Sx.t) = List.filter_map (fun h -> match Sx.args h with
   | [_; Sx.A "novalues"] -> None
-  | [n; v] -> Some (str n, str v)
+  | n :: v :: _ -> Some (str n, str v)      (* a repeated header: Get answers with its first value *)
   | _ -> failwith "hdr") (Sx.args x)
 
 let s_route = str_of_hex "x726f757465"
